@@ -197,6 +197,13 @@ def drive(ctx, rec, part, strategy, check, n_examples, max_novel=4, shrink=True,
     """
     from hypothesis import HealthCheck, Phase, given, seed as hseed, settings
 
+    try:  # bound the time spent minimising one failure (a budget, never a verdict)
+        from hypothesis.internal.conjecture import engine as _engine
+
+        _engine.MAX_SHRINKING_SECONDS = 20 if ctx.quick else 90
+    except Exception:
+        pass
+
     tag = tag or part + "/generated"
     session = set()
     remaining = int(n_examples)
